@@ -1,4 +1,209 @@
-(* stub, replaced below *)
-From Coq Require Import ZArith List Bool.
-From Verif Require Import C10_Base C10_DecodeSafeCy C10_DecodeSafePy.
-Theorem c10_stub : True. Proof. exact I. Qed.
+(* C10 — Decoding untrusted bytes is memory-safe, terminating and fails cleanly.
+   Public statements only; models in model/C10_Base.v, C10_DecodeSafeCy.v (compiled readers over
+   an instrumented memory), C10_DecodeSafePy.v (pure-Python readers); proofs in proof/C10_*.v.
+
+   The models take a vector [fixes] of booleans, one per repaired site.  [fx_current] (all false) is
+   the code of the pinned tree, [fx_repaired] (all true) the code with every patch of
+   seeded/_proposed_fixes/C10-*.diff applied.  The universal theorems are proved for fx_repaired;
+   for fx_current they are REFUTED by concrete witnesses (which harness/c10.py replays on the real
+   extension under AddressSanitizer).  harness/c10.py evaluates BOTH variants on every input and
+   accepts the real code only if it behaves like one of them, so it tells which variant the tree is.
+
+   The compression codec is abstract: an arbitrary function [dec].  Hypotheses of the compiled
+   theorems: the buffer, and every codec output, is shorter than 2^47 bytes ([small]: no allocation
+   of that size can exist; needed only to exclude MemoryError when copying a key/value of a checked
+   size).  The Python theorems have no hypothesis. *)
+From Coq Require Import ZArith List Bool String.
+From Verif Require Import C10_Base C10_DecodeSafeCy C10_DecodeSafePy C10_Run C10_wp C10_cy_proof C10_py_proof
+                          C10_crc_proof C10_refute.
+Import ListNotations.
+Open Scope Z_scope.
+Open Scope string_scope.
+
+(* the full statement for a given state of the code: every run of the driver
+   (MemoryRecords -> batches -> [validate_crc] -> records) over ANY byte list ends with all records
+   delivered or an ordinary Python exception — no out-of-bounds read, no non-termination, no
+   SystemError / MemoryError / OverflowError from C-API internals *)
+Definition C10_cy_safe (fx : fixes) : Prop :=
+  forall crc32c crc32 dec validate buf, dec_small dec -> small buf ->
+    ok_status (snd (cy_decode crc32c crc32 dec fx validate buf)).
+Definition C10_py_safe (fx : fixes) : Prop :=
+  forall crc32c crc32 dec validate buf,
+    ok_status (snd (py_decode crc32c crc32 dec fx validate buf)).
+
+(* ---------------------------------------------------------------- repaired compiled readers *)
+Theorem c10_cy_no_oob : forall crc32c crc32 dec validate buf, dec_small dec -> small buf ->
+  forall site space pos n len,
+    snd (cy_decode crc32c crc32 dec fx_repaired validate buf) <> SFail (FOOB site space pos n len).
+Proof.
+  intros until buf. intros Hd Hs site space pos n len E.
+  pose proof (cy_decode_ok crc32c crc32 dec validate buf Hd Hs) as H. rewrite E in H. exact H.
+Qed.
+Print Assumptions c10_cy_no_oob.
+
+Theorem c10_cy_terminates : forall crc32c crc32 dec validate buf, dec_small dec -> small buf ->
+  forall site, snd (cy_decode crc32c crc32 dec fx_repaired validate buf) <> SFail (FFuel site).
+Proof.
+  intros until buf. intros Hd Hs site E.
+  pose proof (cy_decode_ok crc32c crc32 dec validate buf Hd Hs) as H. rewrite E in H. exact H.
+Qed.
+Print Assumptions c10_cy_terminates.
+
+Theorem c10_cy_clean : forall crc32c crc32 dec validate buf, dec_small dec -> small buf ->
+  forall site e, snd (cy_decode crc32c crc32 dec fx_repaired validate buf) <> SFail (FInternal site e).
+Proof.
+  intros until buf. intros Hd Hs site e E.
+  pose proof (cy_decode_ok crc32c crc32 dec validate buf Hd Hs) as H. rewrite E in H. exact H.
+Qed.
+Print Assumptions c10_cy_clean.
+
+Theorem c10_cy_safe : C10_cy_safe fx_repaired.
+Proof. exact cy_decode_ok. Qed.
+Print Assumptions c10_cy_safe.
+
+(* the same for the public batch constructors DefaultRecordBatch(buffer) and
+   LegacyRecordBatch(buffer, magic) on an arbitrary buffer (no splitter in front) *)
+Theorem c10_cy_default_batch_safe : forall crc32c dec validate buf, dec_small dec -> small buf ->
+  ok_status (snd (cy_v2_run crc32c dec fx_repaired validate buf)).
+Proof. exact cy_v2_run_ok. Qed.
+Print Assumptions c10_cy_default_batch_safe.
+
+Theorem c10_cy_legacy_batch_safe : forall crc32 dec validate magic buf, dec_small dec -> small buf ->
+  ok_status (snd (cy_l_run crc32 dec fx_repaired validate magic buf)).
+Proof. exact cy_l_run_ok. Qed.
+Print Assumptions c10_cy_legacy_batch_safe.
+
+(* ---------------------------------------------------------------- repaired pure-Python readers *)
+Theorem c10_py_terminates : forall crc32c crc32 dec validate buf site,
+  snd (py_decode crc32c crc32 dec fx_repaired validate buf) <> SFail (FFuel site).
+Proof.
+  intros until site. intros E.
+  pose proof (py_decode_ok crc32c crc32 dec validate buf) as H. rewrite E in H. exact H.
+Qed.
+Print Assumptions c10_py_terminates.
+
+Theorem c10_py_clean : forall crc32c crc32 dec validate buf,
+  (forall site e, snd (py_decode crc32c crc32 dec fx_repaired validate buf) <> SFail (FInternal site e))
+  /\ (forall site sp p n l, snd (py_decode crc32c crc32 dec fx_repaired validate buf) <> SFail (FOOB site sp p n l)).
+Proof.
+  intros. pose proof (py_decode_ok crc32c crc32 dec validate buf) as H.
+  split; intros; intro E; rewrite E in H; exact H.
+Qed.
+Print Assumptions c10_py_clean.
+
+Theorem c10_py_safe : C10_py_safe fx_repaired.
+Proof. exact py_decode_ok. Qed.
+Print Assumptions c10_py_safe.
+
+Theorem c10_py_batches_safe : forall crc32c crc32 dec validate magic buf,
+  ok_status (snd (py_v2_run crc32c dec validate buf))
+  /\ ok_status (snd (py_l_run crc32 dec fx_repaired validate magic buf)).
+Proof. intros. split; [apply py_v2_run_ok|apply py_l_run_ok]. Qed.
+Print Assumptions c10_py_batches_safe.
+
+(* ---------------------------------------------------------------- checksum *)
+(* A batch object that could be constructed and whose checksum field (bytes 17..20 of a v2 batch,
+   12..15 of a v0/v1 message) differs from the checksum of its content (everything from byte 21,
+   resp. 16) is rejected by the driver with CorruptRecordException before any record is delivered —
+   in the compiled and in the Python model, for every setting of the fix flags, every codec and
+   every checksum function. *)
+Theorem c10_crc_detects :
+  (forall crc32c dec f buf h,
+     cy_v2_read_header f buf = Ok h -> v2_crc_field buf <> crc32c (v2_crc_content buf) ->
+     cy_v2_run crc32c dec f true buf = ([], SFail (FRaise Corrupt)))
+  /\ (forall crc32 dec f magic buf m p,
+     cy_l_read_record f 0 buf 0 = Ok (m, p) -> l_crc_field buf <> crc32 (l_crc_content buf) ->
+     cy_l_run crc32 dec f true magic buf = ([], SFail (FRaise Corrupt)))
+  /\ (forall crc32c dec buf h,
+     py_v2_new buf = Ok h -> v2_crc_field buf <> crc32c (v2_crc_content buf) ->
+     py_v2_run crc32c dec true buf = ([], SFail (FRaise Corrupt)))
+  /\ (forall crc32 dec f magic buf h,
+     py_l_new magic buf = Ok h -> l_crc_field buf <> crc32 (l_crc_content buf) ->
+     py_l_run crc32 dec f true magic buf = ([], SFail (FRaise Corrupt))).
+Proof.
+  split; [exact cy_v2_crc_detects|]. split; [exact cy_l_crc_detects|].
+  split; [exact py_v2_crc_detects|exact py_l_crc_detects].
+Qed.
+Print Assumptions c10_crc_detects.
+
+(* ---------------------------------------------------------------- the pinned tree: refuted *)
+(* out-of-bounds reads of the compiled readers as pinned (site, memory space, position, size, length) *)
+Theorem c10_cy_no_oob_current_refuted :
+  exists crc32c crc32, exists d1 d2 d3 : Z -> list Z -> dres, exists b1 b2 b3 b4,
+    snd (cy_decode crc32c crc32 d1 fx_current false b1) = SFail (FOOB "default_records._read_header" 0 23 4 26)
+    /\ snd (cy_decode crc32c crc32 d1 fx_current false b2) = SFail (FOOB "cutil.decode_varint64" 0 62 1 62)
+    /\ snd (cy_decode crc32c crc32 d1 fx_current false b3) = SFail (FOOB "legacy_records._read_record" 0 26 4 26)
+    /\ snd (cy_decode crc32c crc32 d2 fx_current false b4) = SFail (FOOB "legacy_records._read_last_offset" 1 8 4 5)
+    /\ snd (cy_decode crc32c crc32 d3 fx_current false b4) = SFail (FOOB "legacy_records._read_last_offset" 1 (-12) 8 0).
+Proof.
+  exists C, C2, D0, D5, DE, w_hdr, w_varint, w_vlen, w_wrap.
+  rewrite w_hdr_cur, w_varint_cur, w_vlen_cur, w_last5_cur, w_last0_cur. repeat split.
+Qed.
+Print Assumptions c10_cy_no_oob_current_refuted.
+
+Theorem c10_cy_terminates_current_refuted :
+  exists crc32c crc32 dec buf,
+    snd (cy_decode crc32c crc32 dec fx_current false buf) = SFail (FFuel "legacy_records._read_last_offset").
+Proof. exists C, C2, DH, w_wrap. rewrite w_hang_cy_cur. reflexivity. Qed.
+Print Assumptions c10_cy_terminates_current_refuted.
+
+Theorem c10_cy_clean_current_refuted :
+  exists crc32c crc32 dec b1 b2 b3,
+    snd (cy_decode crc32c crc32 dec fx_current false b1) = SFail (FInternal "legacy_records._read_record" "SystemError")
+    /\ snd (cy_decode crc32c crc32 dec fx_current false b2) = SFail (FInternal "default_records._read_msg" "OverflowError")
+    /\ snd (cy_decode crc32c crc32 dec fx_current false b3) = SFail (FInternal "default_records._read_msg" "MemoryError").
+Proof.
+  exists C, C2, D0, w_neg, w_ovf, w_mem. rewrite w_neg_cur, w_ovf_cur, w_mem_cur. repeat split.
+Qed.
+Print Assumptions c10_cy_clean_current_refuted.
+
+Theorem c10_py_terminates_current_refuted :
+  exists crc32c crc32 dec buf,
+    snd (py_decode crc32c crc32 dec fx_current false buf) = SFail (FFuel "legacy_records.py._read_all_headers").
+Proof. exists C, C2, DH, w_wrap. rewrite w_hang_py_cur. reflexivity. Qed.
+Print Assumptions c10_py_terminates_current_refuted.
+
+Theorem c10_current_unsafe : ~ C10_cy_safe fx_current /\ ~ C10_py_safe fx_current.
+Proof.
+  split; intro H.
+  - specialize (H C C2 D0 false w_hdr).
+    assert (Hd : dec_small D0) by (intros c p out E; discriminate).
+    assert (Hs : small w_hdr) by (vm_compute; reflexivity).
+    specialize (H Hd Hs). rewrite w_hdr_cur in H. exact H.
+  - specialize (H C C2 DH false w_wrap). rewrite w_hang_py_cur in H. exact H.
+Qed.
+Print Assumptions c10_current_unsafe.
+
+(* each proposed patch is necessary: all flags on except one, and its witness still fails *)
+Theorem c10_each_fix_needed :
+  snd (cy_decode C C2 D0 fx_but_hdr false w_hdr) = SFail (FOOB "default_records._read_header" 0 23 4 26)
+  /\ snd (cy_decode C C2 D0 fx_but_varint false w_varint) = SFail (FOOB "cutil.decode_varint64" 0 62 1 62)
+  /\ snd (cy_decode C C2 D0 fx_but_bounds false w_ovf) = SFail (FInternal "default_records._read_msg" "OverflowError")
+  /\ snd (cy_decode C C2 D0 fx_but_bounds false w_neg) = SFail (FInternal "legacy_records._read_record" "SystemError")
+  /\ snd (cy_decode C C2 D0 fx_but_vlen false w_vlen) = SFail (FOOB "legacy_records._read_record" 0 26 4 26)
+  /\ snd (cy_decode C C2 D5 fx_but_lastoff false w_wrap) = SFail (FOOB "legacy_records._read_last_offset" 1 8 4 5)
+  /\ snd (cy_decode C C2 DH fx_but_lastoff false w_wrap) = SFail (FFuel "legacy_records._read_last_offset")
+  /\ snd (py_decode C C2 DH fx_but_pyhdrs false w_wrap) = SFail (FFuel "legacy_records.py._read_all_headers").
+Proof. exact each_fix_needed. Qed.
+Print Assumptions c10_each_fix_needed.
+
+(* ---------------------------------------------------------------- non-vacuity *)
+(* the hypotheses are satisfiable and the repaired model does deliver records: a valid one-record
+   v2 batch (built by the real builder; checksum verified) decodes to one record *)
+Definition ex_v2 := of_hex "000000000000000000000042ffffffff02dc0e98b800000000000000000000000003e800000000000003e8ffffffffffffffffffffffffffff0000000120000000026b0a76616c75650202680278".
+Example c10_hyps_satisfiable :
+  small ex_v2 /\ dec_small D0
+  /\ cy_decode C C2 D0 fx_repaired true ex_v2 = cy_decode C C2 D0 fx_current true ex_v2
+  /\ List.length (fst (cy_decode C C2 D0 fx_repaired true ex_v2)) = 1%nat
+  /\ snd (cy_decode C C2 D0 fx_repaired true ex_v2) = SDone
+  /\ snd (py_decode C C2 D0 fx_repaired true ex_v2) = SDone.
+Proof.
+  split; [vm_compute; reflexivity|]. split; [intros c p out E; discriminate|].
+  vm_compute. repeat split; reflexivity.
+Qed.
+
+(* the CRC functions of the model are the standard ones: check value of "123456789" *)
+Example c10_crc_check_values :
+  crc32c_cast [49; 50; 51; 52; 53; 54; 55; 56; 57] = 3808858755
+  /\ crc32_ieee [49; 50; 51; 52; 53; 54; 55; 56; 57] = 3421780262.
+Proof. vm_compute. split; reflexivity. Qed.
